@@ -75,6 +75,8 @@ async fn value_lane(mut rx: VRx, mut tx: VTx, mut state: i64, laziness: usize) {
                 if tx.send(LaneResponse::<i64>::Synced(id)).await.is_err() {
                     return;
                 }
+                // ... and only then the change itself
+                waited = laziness;
             }
             LaneRequest::InitComplete => {}
         }
@@ -119,6 +121,7 @@ async fn map_lane(mut rx: MRx, mut tx: MTx, mut state: BTreeMap<i64, i64>, lazin
                 if tx.send(LaneResponse::<MapOperation<i64, i64>>::Synced(id)).await.is_err() {
                     return;
                 }
+                waited = laziness;
             }
             LaneRequest::InitComplete => {}
         }
